@@ -110,7 +110,31 @@ pub fn state(a: &BinArchive, level: u8) -> String {
     );
     if level >= 2 {
         match a.serialize() {
-            Ok(b) => s.push_str(&format!(" ser={}", show_b(&b))),
+            Ok(b) => {
+                // where the pending c-strings land: re-parse the image and read every pointer into the pool
+                let endian = if b.len() >= 4 && u32::from_le_bytes([b[0], b[1], b[2], b[3]]) as usize == b.len() { Endian::Little } else { Endian::Big };
+                let mut rc: Vec<String> = Vec::new();
+                match BinArchive::from_bytes(&b, endian) {
+                    Ok(re) => {
+                        let mut addr = 0usize;
+                        while addr + 4 <= re.size() {
+                            if let Ok(Some(_)) = re.read_pointer(addr) {
+                                // a pointer the original archive does not have: a published c-string
+                                if !matches!(a.read_pointer(addr), Ok(Some(_))) {
+                                    match re.read_c_string(addr) {
+                                        Ok(Some(x)) => rc.push(format!("{}:{}", addr, show_sjis(&x))),
+                                        _ => rc.push(format!("{}:?", addr)),
+                                    }
+                                }
+                            }
+                            addr += 1;
+                        }
+                        s.push_str(&format!(" rc=[{}]", rc.join(",")));
+                    }
+                    Err(_) => s.push_str(" rc=err"),
+                }
+                s.push_str(&format!(" ser={}", show_b(&b)))
+            }
             Err(_) => s.push_str(" ser=err"),
         }
     }
